@@ -16,10 +16,14 @@ Record Scannable (s : store) (k : skey) : Prop := {
            sc_live : seg_wf (pubrecs s) (s_idx (live s));
   (* S3 *) sc_gapless : map (key_pos k) (filter (matches k) (all_events (abs_visible s)))
                         = map N.of_nat (seq 0 (length (filter (matches k) (all_events (abs_visible s)))));
-           sc_u64 : forall e, In e (all_events (abs_visible s)) -> matches k e = true -> key_pos k e <= U64MAX;
   (* S4 *) sc_closed : forall g e e', In g (abs_visible s) -> In e g -> In e' g ->
                         matches k e = true -> key_matches k e' = true -> matches k e' = true
 }.
+
+(* positions fit the on-disk u64 fields (needed only by reverse scans, for the special start
+   position u64::MAX) *)
+Definition U64ok (s : store) (k : skey) : Prop :=
+  forall e, In e (all_events (abs_visible s)) -> matches k e = true -> key_pos k e <= U64MAX.
 
 (* S4 in the form the writer gives it: a transaction belongs to one partition *)
 Lemma same_pid_closed (l : alog) k :
@@ -31,7 +35,7 @@ Proof.
   rewrite <- (H g e e' Hg He He'). assumption.
 Qed.
 
-Definition seg_layout (recs : list rec) : list lgrp := layout_of 0 (groups recs).
+Definition seg_layout (recs : list rec) : list lgrp := layout_of 0 (groups recs) (commit_counts recs).
 Definition Ls (s : store) : list (list lgrp) :=
   map (fun g => seg_layout (s_recs g)) (sealed s) ++ [seg_layout (pubrecs s)].
 Definition Lat (s : store) (i : nat) : list lgrp := nth i (Ls s) [].
@@ -101,13 +105,6 @@ Section Facts.
 Variables (s : store) (k : skey).
 Hypothesis HS : Scannable s k.
 
-Lemma in_layout_of : forall gs b g, In g (layout_of b gs) -> exists b' es, In es gs /\ g = (loc b' es, gkind es).
-Proof.
-  induction gs as [|es gs IH]; intros b g H; [contradiction|]. cbn in H. destruct H as [<-|H].
-  - exists b, es. split; [left|]; reflexivity.
-  - destruct (IH _ _ H) as (b' & es' & H1 & H2). exists b', es'. split; [right|]; assumption.
-Qed.
-
 Lemma seg_layout_ok recs extra : (exists gs, wf_recs recs gs) ->
   (forall g, In g (groups recs) -> In g (abs_visible s)) ->
   layout_ok k (recs ++ extra) 0 (seg_layout recs).
@@ -115,7 +112,7 @@ Proof.
   intros [gs Hwf] Hvis. unfold seg_layout. rewrite (wf_groups _ _ Hwf) in *. split.
   - apply Forall_forall. intros g Hg. repeat split.
     + intros j o e rest Hsk. apply (wf_read _ _ Hwf extra 0%nat [] eq_refl g Hg j o e rest Hsk).
-    + destruct (in_layout_of _ _ _ Hg) as (b' & es & Hes & ->). unfold kclosed. cbn [fst].
+    + destruct (in_layout_of _ _ _ _ Hg) as (b' & es & Hes & Hfst). unfold kclosed. rewrite Hfst.
       intros oe oe' H1 H2. unfold kmatch. apply (sc_closed _ _ HS es); auto.
       * apply in_map with (f := snd) in H1. rewrite loc_snd in H1. assumption.
       * apply in_map with (f := snd) in H2. rewrite loc_snd in H2. assumption.
@@ -217,10 +214,10 @@ Proof.
 Qed.
 
 (* (f) positions fit in u64 *)
-Lemma seg_u64_fact i oe : (i <= live_id s)%nat -> In oe (lay_events (Lat s i)) -> kmatch k oe = true ->
+Lemma seg_u64_fact i oe : U64ok s k -> (i <= live_id s)%nat -> In oe (lay_events (Lat s i)) -> kmatch k oe = true ->
   key_pos k (snd oe) <= U64MAX.
 Proof.
-  intros H Hin Hm. apply (sc_u64 _ _ HS); [|exact Hm]. rewrite all_events_Ls. apply in_concat.
+  intros HU H Hin Hm. apply HU; [|exact Hm]. rewrite all_events_Ls. apply in_concat.
   exists (evs_of (Lat s i)). split.
   - apply in_map. rewrite (Ls_split s i H). apply in_or_app. right. left. reflexivity.
   - unfold evs_of. apply in_map. assumption.
